@@ -7,7 +7,11 @@
 use crate::datamodel::Data;
 use crate::fsm::GlobalData;
 use std::collections::HashMap;
-use std::sync::{Arc, Mutex, MutexGuard};
+#[cfg(rfsm_verif)]
+use crate::verif::sync::{Mutex, MutexGuard};
+use std::sync::Arc;
+#[cfg(not(rfsm_verif))]
+use std::sync::{Mutex, MutexGuard};
 
 /// Trait to inject custom actions into the datamodel.
 pub trait Action: Send {
